@@ -2617,8 +2617,12 @@ class Parameters:
             if k in self_ and hasattr(self_[k], '_autotrigger_value')
         ]
 
-        for tp in trigger_params:
-            self_[tp]._mode = 'set'
+        # On a class, assigning to an inherited Parameter installs a copy of
+        # it in the class: remember the objects whose mode is switched here
+        # so that exactly those (and the copies made meanwhile) are reset.
+        switched = [self_[tp] for tp in trigger_params]
+        for p in switched:
+            p._mode = 'set'
 
         values = self_.values()
         restore = {k: values[k] for k, v in kwargs.items() if k in values}
@@ -2636,11 +2640,12 @@ class Parameters:
                 if not BATCH_WATCH:
                     self_._batch_call_watchers()
             finally:
-                for tp in trigger_params:
+                for tp, p0 in zip(trigger_params, switched):
                     p = self_[tp]
                     p._mode = 'reset'
                     setattr(self_or_cls, tp, p._autotrigger_reset_value)
-                    p._mode = 'set-reset'
+                    for q in (p0, p, self_[tp]):
+                        q._mode = 'set-reset'
         return restore
 
     # PARAM3_DEPRECATION
